@@ -19,6 +19,7 @@
          ReferenceError:ReferenceError,SyntaxError:SyntaxError,URIError:URIError,Object:Object,
          String:String,Number:Number,Boolean:Boolean,RegExp:RegExp,Array:Array,Function:Function,
          parse:JSON.parse, decodeURI:decodeURI, geval:eval};
+  var VOC=['m0','m1','m2','m3','pk0','pk5','pk10','pk15','pk20','touched','added','t6','t9','hid','inj','n0','n5'];
   function prim(v){
     var t=typeof v;
     if(t==='number'){ if(v===0&&1/v<0) return 'n:-0'; return 'n:'+v; }
@@ -46,6 +47,9 @@
       else if(c==='[object Boolean]') s+=' bv='+prim(boolVal(o));
       else if(c==='[object Date]') s+=' dv='+prim(dateVal(o));
     }catch(e){ s+=' pv=!'; }
+    for(j=0;j<VOC.length;j++){
+      if(hasOwn(o,VOC[j])){ var listed=false; for(var jj=0;jj<names.length;jj++){ if(names[jj]===VOC[j]){listed=true;break;} } if(!listed) s+='\n  '+VOC[j]+' <present-by-name-but-not-listed>'; }
+    }
     for(j=0;j<names.length;j++){
       nm=names[j]; d=gopd(o,nm);
       if(!d){ s+='\n  '+nm+' <nodesc>'; continue; }
@@ -88,7 +92,7 @@
     try{
       c=classOf(o); names=gopn(o);
       switch(kind){
-      case 0: o['m'+arg]=arg; return 'add';
+      case 0: o['m'+(arg%4)]=arg; return 'add';
       case 1: if(names.length===0) return 'noprops'; k=names[arg%names.length]; return 'delete '+k+' '+(delete o[k]);
       case 2: k=names.length?names[arg%names.length]:'z'; d=gopd(o,k)||{value:arg,configurable:true};
               if(hasOwn(d,'value')){ defProp(o,k,{value:d.value,writable:false,enumerable:!d.enumerable,configurable:d.configurable}); }
